@@ -50,7 +50,7 @@ fn report<C: Serialize>(prop: &str, variant: &str, case: &C, msg: &str) -> ! {
     let doc = serde_json::json!({"property": prop, "variant": variant, "case": case, "observed": msg});
     eprintln!("VIOLATION-CASE {}", doc);
     // write a replay file next to the libFuzzer artifact
-    let dir = std::path::Path::new(VERIF_ROOT).join("replays").join(prop).join("new");
+    let dir = std::path::Path::new(&verif_root()).join("replays").join(prop).join("new");
     let _ = std::fs::create_dir_all(&dir);
     let path = dir.join(format!("fuzz-{:016x}.json", blake2_64(&[doc.to_string().as_bytes()])));
     let _ = std::fs::write(&path, serde_json::to_vec_pretty(&doc).unwrap());
